@@ -245,6 +245,26 @@ size_t lpv_cxx_infeasible(const lp_polynomial_t* p, const lp_assignment_t* m, in
 size_t lpv_cxx_roots(const lp_polynomial_t* p, const lp_assignment_t* m, lp_value_t** out);
 #endif
 
+/* lp_feasibility_set_contains on the end points (roots), points between consecutive end points and outer points */
+static void probe_membership(const lp_feasibility_set_t* s) {
+  lp_value_t pts[40]; int np = 0;
+  for (size_t i = 0; i < s->size && np < 30; ++i) {
+    const lp_interval_t* I = s->intervals + i;
+    if (I->a.type != LP_VALUE_MINUS_INFINITY && I->a.type != LP_VALUE_PLUS_INFINITY) lp_value_construct_copy(&pts[np++], &I->a);
+    if (!I->is_point && I->b.type != LP_VALUE_MINUS_INFINITY && I->b.type != LP_VALUE_PLUS_INFINITY) lp_value_construct_copy(&pts[np++], &I->b);
+  }
+  int ne = np;
+  for (int i = 0; i + 1 < ne && np < 38; ++i)
+    if (lp_value_cmp(&pts[i], &pts[i + 1]) < 0) { lp_value_construct_none(&pts[np]); lp_value_get_value_between(&pts[i], 1, &pts[i + 1], 1, &pts[np]); ++np; }
+  { lp_integer_t z; lp_integer_construct_from_int(lp_Z, &z, -1000); lp_value_construct(&pts[np++], LP_VALUE_INTEGER, &z);
+    lp_integer_assign_int(lp_Z, &z, 1000); lp_value_construct(&pts[np++], LP_VALUE_INTEGER, &z); lp_integer_destruct(&z); }
+  for (int i = 0; i < np; ++i) {
+    sb_begin("ev", "fsmem"); sb_sp(); sb_vset(s); sb_sp(); sb_val(&pts[i]); sb_arrow();
+    sb_sp(); sb_long(lp_feasibility_set_contains(s, &pts[i])); sb_emit();
+  }
+  for (int i = 0; i < np; ++i) lp_value_destruct(&pts[i]);
+}
+
 static void main_case(int mode) {
   int kind = 0;
   lp_polynomial_t* T = scenario(&kind);
@@ -297,6 +317,7 @@ static void main_case(int mode) {
       sb_begin("ev", "fs"); sb_sp(); sb_poly(p); sb_sp(); sb_long(cond); sb_sp(); sb_long(neg); sb_sp(); sb_asg(); sb_arrow();
       lp_feasibility_set_t* s = lp_polynomial_constraint_get_feasible_set(p, (lp_sign_condition_t)cond, neg, M);
       sb_sp(); sb_vset(s); sb_emit();
+      if (chance(60)) probe_membership(s);
 #ifdef LPV_HAVE_CXX_SHIM
       if (!neg) {       /* poly::infeasible_regions: the complement of the feasible set */
         lp_interval_t* R = 0;
@@ -314,6 +335,7 @@ static void main_case(int mode) {
       sb_begin("ev", "rfs"); sb_sp(); sb_poly(p); sb_sp(); sb_ulong(k); sb_sp(); sb_long(cond); sb_sp(); sb_long(neg); sb_sp(); sb_asg(); sb_arrow();
       lp_feasibility_set_t* s = lp_polynomial_root_constraint_get_feasible_set(p, k, (lp_sign_condition_t)cond, neg, M);
       sb_sp(); sb_vset(s); sb_emit();
+      if (chance(40)) probe_membership(s);
       lp_feasibility_set_delete(s);
     }
   }
